@@ -16,6 +16,11 @@ clauses (names as they appear in `margins` / violations)
                       geometry displaced + force = None) -> run B on the SAME Molecule: all row clauses on run B incl. vv-x / vv-v
                       with ITS stored forces, step 0 = the carried state (1e-15), coordinates / velocities / Ek+Ep equal to a
                       fresh Molecule started from the same (x, v) on the same surface (1e-7), order ratio of B in [3, 5.5]
+  eps-* / looseeps-*  excited-surface NVE whose user scf_eps (1e-3..1e-5) is looser than 0.1 x CIS tolerance: the reported scf_eps is
+                      <= 0.1 tol, the live solver threshold equals the reported one, dt-halving clauses hold at the tightened
+                      threshold, and the trajectory equals (1e-9 A / eV) that of a run whose user scf_eps IS the tightened value
+  split-invariance / noreuse-reversal-x   reuse_P=False on analytical / semi-numerical / excited-surface forces: 2N steps == N + N steps
+                      bit for bit (coordinates, velocities, forces), and (x_2N, -v_2N) retraces within 5e-9 A
   reversal-x/-v       restart from (x_N, -v_N) for N steps returns to (x_0, -v_0): 1e-7 A / 1e-8 A/fs  (b)
   order               ||x_dt - x_dt/2|| / ||x_dt/2 - x_dt/4|| in [3, 5.5] at the common end time  (c)
   energy-std-scaling  std of E(t)-E(0), E=Ek+Ep, on the common time grid shrinks by [2.8, 5.6] per halving of dt   (d)
@@ -28,6 +33,9 @@ clauses (names as they appear in `margins` / violations)
                       under 'angular' when the real atoms are collinear, e.g. any diatomic)               (e)
   Ep-sp / F-sp        stored Ep(s), /forces(s) vs an independent cold single point at /coordinates(s):
                       1e-8 + 20 eps eV, 1e-6 + 2e3 eps eV/A (C04 algebra)                          (e)
+  dipole-sp / state-energy-active / excitation-sp   the other published /data rows of step s belong to the coordinates of step s:
+                      properties/ground_dipole[s] = single-point dipole (1e-6), excitation/state_energies[s, active] = Ep[s]
+                      (1e-10), state_energies[s,1:]-[s,0] = single-point CIS energies (1e-6)                          (e)
   steps-rows          every stream has rows 0..N exactly                                            (e)
                       batches are written with output selections molid in {[1], [1,0], [2,0], all}: every row clause is
                       evaluated per FILE md.<mol>.h5 against that molecule's own velocities / single point
@@ -54,7 +62,8 @@ ASSUMPTIONS = ["float64 CPU, scf_eps 1e-10 so that SCF noise (<=2e-7 eV/A in for
                "velocity-Verlet recurrence clause relies on docs/source/bomd.rst naming the integrator",
                "atomic masses of the shipped table are the property's given"]
 REQUIRED_MONITORS = ["md_runs", "rows_checked", "order_ratios", "energy_ratios", "reversal_pairs", "single_points",
-                     "constants_checked", "molid_subset_files", "momentum_mode_files", "net_L_files", "net_P_files", "continuations"]
+                     "constants_checked", "molid_subset_files", "momentum_mode_files", "net_L_files", "net_P_files", "continuations", "loose_eps_excited_cells",
+                     "noreuse_nonautograd_cells", "dipole_rows", "state_energy_rows"]
 CASE_TIMEOUT = 1500.0
 BUDGET_S = {"quick": 200, "thorough": 1700}
 
@@ -68,6 +77,7 @@ TOL_P = 1e-12
 TOL_L = 1e-8
 TOL_REV_X = 1e-7
 TOL_REV_V = 1e-8
+TOL_REV_NOREUSE = 5e-9  # retrace with reuse_P=False: F is a function of x alone (measured 2.6e-10 A at scf_eps 1e-7)
 ORDER_LO, ORDER_HI = 3.0, 5.5
 STD_LO, STD_HI = 2.8, 5.6
 RESID_K = 1.0  # allowed dt-independent residual, as a fraction of the dt^2 energy-error scale: RESID_K*dt^2 (dt in fs);
@@ -157,6 +167,24 @@ def gen_cases(tier, seed):
     for c_ in cont:
         c_.update(kind="continue", T=300.0, geom_seed=s())
         cases.append(c_)
+    loose = [dict(mol="CH2O", method="AM1", user_eps=1e-4, cis_tol=1e-6, dts=[0.1, 0.05], t_end=2.0)]
+    noreuse = [dict(mol="H2O", method="AM1", force="analytical", dt=0.5, n=6, eps=1e-7),
+               dict(mol="CH2O", method="AM1", force="excited", dt=0.5, n=6, eps=1e-7)]
+    if tier != "quick":
+        loose += [dict(mol="CH2O", method="PM3", user_eps=1e-5, cis_tol=1e-6, dts=[0.2, 0.1, 0.05], t_end=4.0),
+                  dict(mol="H2O", method="AM1", user_eps=1e-3, cis_tol=1e-7, dts=[0.1, 0.05], t_end=3.0),
+                  dict(mol="NH3", method="AM1", user_eps=1e-4, cis_tol=1e-5, dts=[0.2, 0.1], t_end=4.0)]
+        noreuse += [dict(mol="NH3", method="PM3", force="analytical", dt=0.2, n=10, eps=1e-6),
+                    dict(mol="CH2O", method="AM1", force="numerical", dt=0.5, n=6, eps=1e-7),
+                    dict(mol="H2O", method="AM1", force="excited", dt=0.25, n=10, eps=1e-6),
+                    dict(mol="CH3OH", method="MNDO", force="analytical", dt=0.5, n=8, eps=1e-8),
+                    dict(mol="CH2O", method="PM3", force="excited", dt=0.5, n=8, eps=1e-8)]
+    for c_ in loose:
+        c_.update(kind="loose-eps", T=300.0, geom_seed=s())
+        cases.append(c_)
+    for c_ in noreuse:
+        c_.update(kind="noreuse", T=300.0, geom_seed=s())
+        cases.append(c_)
     mom = [dict(mols=["H2O", "CH4"], method="AM1", variant="net-angular", dt=0.5, n=8),
            dict(mols=["NH3"], method="PM3", variant="net-linear", dt=0.5, n=8)]
     if tier != "quick":
@@ -182,6 +210,10 @@ def _cost(c):
         return c["n"]
     if c["kind"] == "momentum":
         return c["n"] * len(c["modes"])
+    if c["kind"] == "loose-eps":
+        return (sum(c["t_end"] / dt for dt in c["dts"]) + c["t_end"] / c["dts"][0]) * 2.5
+    if c["kind"] == "noreuse":
+        return 8 * c["n"] * (2.5 if c["force"] == "excited" else 1.0)
     if c["kind"] == "continue":
         return (sum(c["t_end"] / dt for dt in c["dts"]) + 3 * c["nA"]) * (2.5 if c["mod"] == "switch-state" else 1.0)
     return 0
@@ -249,6 +281,12 @@ class _Acc:
             return True
         return False
 
+    def flag(self, name, bad, detail=None, mech=None):
+        """exact (bitwise / boolean) clause."""
+        self.margins[name] = max(self.margins.get(name, 0.0), 2.0 if bad else 0.0)
+        if bad:
+            self.viol.append({"clause": name, "mech": mech, "detail": detail or {}})
+
     def window(self, name, ratio, lo, hi, detail=None, centre=4.0):
         """ratio must lie in [lo, hi]; margin is the log-distance from the ideal value 4 relative to the bound."""
         if not (ratio > 0) or not math.isfinite(ratio):
@@ -281,7 +319,7 @@ def _pole_mech(Zr, xs):
     return "pair-on-x-pole" if best < 1e-3 else None
 
 
-def _check_run(acc, h, Zr, dt, nsteps, remove_com, t_total, tag):
+def _check_run(acc, h, Zr, dt, nsteps, remove_com, t_total, tag, eps=None):
     """clauses (a), (e rows), vv recurrence for ONE molecule's HDF5 record."""
     from vlib import md
 
@@ -311,7 +349,7 @@ def _check_run(acc, h, Zr, dt, nsteps, remove_com, t_total, tag):
     dL = _mx(np.abs(p[1] - PL[0][1]).max() for p in PL)
     rsum = float(np.linalg.norm(x[0] - md.com(mm, x[0]), axis=1).sum())
     mech = None
-    tolL = TOL_L * ls + 2e3 * EPS * md.REF_ACC_SCALE * t_total * rsum
+    tolL = TOL_L * ls + 2e3 * (EPS if eps is None else eps) * md.REF_ACC_SCALE * t_total * rsum
     if dL > tolL:
         mech = _pole_mech(Zr, x)
     tolP = TOL_P
@@ -368,6 +406,19 @@ def _check_sp(acc, h, Zr, sett, steps, tag):
         acc.upd("Ep-sp", abs(float(sp["Etot"][0]) - float(h["Ep"][s_])), 1e-8 + 20 * EPS, {"run": tag, "step": int(s_)})
         acc.upd("F-sp", np.abs(sp["force"][0] - h["forces"][s_]).max(), 1e-6 + 2e3 * EPS, {"run": tag, "step": int(s_)})
         acc.mon["single_points"] += 1
+        # the other published /data rows of step s are those of the coordinates of step s (a row one step stale would differ by
+        # 1e-3 ... 1e-2 a.u. / eV): ground dipole, absolute state energies, excitation energies
+        if h.get("dipole") is not None and sp.get("dipole") is not None:
+            acc.upd("dipole-sp", np.abs(np.asarray(sp["dipole"][0]) - h["dipole"][s_]).max(), 1e-6 + 2e3 * EPS, {"run": tag, "step": int(s_)})
+            acc.mon["dipole_rows"] = acc.mon.get("dipole_rows", 0) + 1
+        if se is not None:
+            a = int(sett.get("active_state", 0))
+            acc.upd("state-energy-active", abs(float(se[s_, a]) - float(h["Ep"][s_])), 1e-10, {"run": tag, "step": int(s_), "active": a})
+            if sp.get("cis_energies") is not None:
+                nr = min(se.shape[1] - 1, len(sp["cis_energies"][0]))
+                acc.upd("excitation-sp", np.abs((se[s_, 1:1 + nr] - se[s_, 0]) - np.asarray(sp["cis_energies"][0][:nr])).max(), 1e-6,
+                        {"run": tag, "step": int(s_)})
+                acc.mon["state_energy_rows"] = acc.mon.get("state_energy_rows", 0) + 1
 
 
 def _family(case):
@@ -633,6 +684,143 @@ def _continue(case):
     return acc.result(ok, obs)
 
 
+def _single(case):
+    g = np.random.default_rng(case["geom_seed"])
+    Z, X, q, m = gen.molecule(case["mol"])
+    X = gen.distort(X, g, sigma=0.03)
+    X = X @ gen.generic_rotation(X, g).T
+    from vlib import md
+
+    return Z, X, md.supplied_velocities(Z, X, case["T"], g)
+
+
+def _live_eps(mdo):
+    try:
+        return float(mdo.esdriver.conservative_force.energy.hamiltonian.eps)
+    except Exception:
+        return None
+
+
+def _loose_eps(case):
+    """excited-surface NVE with a user scf_eps LOOSER than 0.1 x CIS tolerance: the documented tightening (scf_eps <= 0.1 tol) is
+    what guarantees conservation.  Judged by dt-halving at the tightened threshold and by equality with a run whose user
+    scf_eps is explicitly the tightened value."""
+    from vlib import env, md, run
+
+    acc = _Acc(case)
+    Z, X, V = _single(case)
+    tol, ue = case["cis_tol"], case["user_eps"]
+    tight = 0.1 * tol
+    exc = {"n_states": 3, "tolerance": tol, "method": "cis"}
+    recs, live, reported = {}, {}, {}
+    try:
+        with env.Scratch("c08") as d, md.quiet():
+            for tag, eps_user, dt in [("L%g" % dt, ue, dt) for dt in case["dts"]] + [("T", None, case["dts"][0])]:
+                n = int(round(case["t_end"] / dt))
+                if eps_user is None:
+                    eps_user = reported.get("L%g" % dt, tight)  # exactly the value the loose run reports after construction
+                sett = run.settings(case["method"], eps=eps_user, converger=(2,), excited=exc, active_state=1)
+                mol, mdo = md.build_md("basic", Z, X, sett, dt, case["T"], md.output_cfg("%s/%s" % (d, tag), [0]), velocities=V)
+                reported[tag] = float(mol.seqm_parameters["scf_eps"])
+                live[tag] = _live_eps(mdo)
+                mdo.run(mol, steps=n, reuse_P=True, remove_com=None)
+                acc.mon["md_runs"] += 1
+                recs[tag] = (n, dt, md.read_h5("%s/%s.0.h5" % (d, tag)))
+    except Exception as exc_:
+        return {"inconclusive": "loose-eps sequence raised: %s: %s" % (type(exc_).__name__, str(exc_)[:300])}
+    obs = {"user_eps": ue, "cis_tol": tol, "reported": reported, "live": live}
+    for tag in recs:
+        acc.upd("eps-tightened-reported", max(reported[tag] / tight - 1.0, 0.0) if reported[tag] == reported[tag] else float("nan"), 1e-12,
+                {"run": tag, "reported": reported[tag], "documented_max": tight})
+        if live[tag] is not None:
+            acc.upd("eps-in-force", abs(live[tag] / reported[tag] - 1.0), 1e-12, {"run": tag, "live_solver_eps": live[tag], "reported": reported[tag]})
+    ok = True
+    for tag, (n, dt, h) in recs.items():
+        ok &= _check_run(acc, h, Z, dt, n, None, case["t_end"], tag, eps=max(tight, tol))
+    if ok:
+        # dt-halving at the tightened threshold
+        for i in range(len(case["dts"]) - 1):
+            (nc, dtc, hc), (nf, dtf, hf) = recs["L%g" % case["dts"][i]], recs["L%g" % case["dts"][i + 1]]
+            Ec, Ef = hc["Ek"] + hc["Ep"], (hf["Ek"] + hf["Ep"])[::2]
+            if len(Ec) != len(Ef):
+                continue
+            devc, devf = Ec - Ec[0], Ef - Ef[0]
+            scale = float(np.abs(devc).max())
+            noise = 100 * tight * nf
+            r = (4.0 * devf - devc) / 3.0
+            det = {"dts": [dtc, dtf], "scale_dt2": scale, "noise_allowance": noise}
+            acc.upd("energy-residual-pointwise", float(np.abs(r).max()), RESID_K * dtc * dtc * scale + noise + PES_STEP, det)
+            if not (devf.std() <= 10 * noise):
+                acc.window("energy-std-scaling", float(devc.std() / devf.std()), STD_LO, STD_HI, det)
+                acc.mon["energy_ratios"] += 1
+            obs["resid/%g" % dtc] = float(np.abs(r).max())
+        nL, dtL, hL = recs["L%g" % case["dts"][0]]
+        nT, dtT, hT = recs["T"]
+        dx = float(np.abs(hL["coordinates"] - hT["coordinates"]).max())
+        dE = float(np.abs((hL["Ek"] + hL["Ep"]) - (hT["Ek"] + hT["Ep"])).max())
+        acc.upd("looseeps-vs-tight-x", dx, 1e-9, {"user_eps": ue, "tight_eps": reported.get("T")})
+        acc.upd("looseeps-vs-tight-E", dE, 1e-9, {"user_eps": ue, "tight_eps": reported.get("T")})
+        obs.update({"dx_vs_tight": dx, "dE_vs_tight": dE})
+        acc.mon["loose_eps_excited_cells"] += 1
+        acc.cells.append("loose-eps/%s/%s/user%g/tol%g" % (case["method"], case["mol"], ue, tol))
+    return acc.result(ok, obs)
+
+
+def _noreuse(case):
+    """reuse_P=False on a force path that does not go through autograd (analytical / semi-numerical gradient, excited surface):
+    nothing is carried from step to step, so the trajectory is an exact function of (x, v): 2N steps == N + N steps bit for bit
+    (second leg continued on the same Molecule), and (x_2N, -v_2N) retraces."""
+    from vlib import env, md, run
+
+    acc = _Acc(case)
+    Z, X, V = _single(case)
+    n, dt, eps = case["n"], case["dt"], case["eps"]
+    if case["force"] == "excited":
+        sett = run.settings(case["method"], eps=eps, converger=(2,), excited={"n_states": 3, "tolerance": 10 * eps, "method": "cis"},
+                            active_state=1)
+    else:
+        sett = run.settings(case["method"], eps=eps, converger=(2,), grad=case["force"])
+    try:
+        with env.Scratch("c08") as d, md.quiet():
+            def leg(mol, tag, steps):
+                mdo = md.make_engine("basic", mol.seqm_parameters, dt, case["T"], md.output_cfg("%s/%s" % (d, tag), [0]))
+                mdo.run(mol, steps=steps, reuse_P=False, remove_com=None)
+                acc.mon["md_runs"] += 1
+                return md.read_h5("%s/%s.0.h5" % (d, tag))
+
+            molF, _ = md.build_md("basic", Z, X, sett, dt, case["T"], md.output_cfg(d + "/x", [0]), velocities=V)
+            hF = leg(molF, "F", 2 * n)
+            molS, _ = md.build_md("basic", Z, X, sett, dt, case["T"], md.output_cfg(d + "/x", [0]), velocities=V)
+            h1 = leg(molS, "S1", n)
+            h2 = leg(molS, "S2", n)
+            molB, _ = md.build_md("basic", Z, hF["coordinates"][-1], sett, dt, case["T"], md.output_cfg(d + "/x", [0]),
+                                  velocities=-hF["velocities"][-1])
+            hB = leg(molB, "B", 2 * n)
+    except Exception as exc_:
+        return {"inconclusive": "no-reuse sequence raised: %s: %s" % (type(exc_).__name__, str(exc_)[:300])}
+    e_eff = 10 * eps if case["force"] == "excited" else eps
+    ok = _check_run(acc, hF, Z, dt, 2 * n, None, 2 * n * dt, "full", eps=e_eff)
+    ok &= _check_run(acc, h1, Z, dt, n, None, n * dt, "leg1", eps=e_eff)
+    ok &= _check_run(acc, h2, Z, dt, n, None, n * dt, "leg2", eps=e_eff)
+    ok &= _check_run(acc, hB, Z, dt, 2 * n, None, 2 * n * dt, "back", eps=e_eff)
+    obs = {"force": case["force"], "eps": eps}
+    if ok:
+        d1 = max(float(np.abs(h1[k] - hF[k][:n + 1]).max()) for k in ("coordinates", "velocities", "forces"))
+        d2 = max(float(np.abs(h2[k] - hF[k][n:]).max()) for k in ("coordinates", "velocities", "forces"))
+        dE = float(np.abs(np.concatenate([h1["Ep"], h2["Ep"][1:]]) - hF["Ep"]).max())
+        bit = all(np.array_equal(h1[k], hF[k][:n + 1]) and np.array_equal(h2[k], hF[k][n:]) for k in ("coordinates", "velocities", "forces"))
+        det = {"force": case["force"], "eps": eps, "max_abs_diff_leg1": d1, "max_abs_diff_leg2": d2, "max_abs_dEp": dE}
+        acc.flag("split-invariance", not bit, det)
+        dx = float(np.abs(hB["coordinates"][-1] - hF["coordinates"][0]).max())
+        dpath = float(np.abs(hB["coordinates"][::-1] - hF["coordinates"]).max())
+        acc.upd("noreuse-reversal-x", _mx([dx, dpath]), TOL_REV_NOREUSE, dict(det, travelled=float(np.abs(hF["coordinates"][-1] - hF["coordinates"][0]).max())))
+        obs.update({"bitwise": bit, "dx_retrace": dx, "d_leg2": d2})
+        acc.mon["noreuse_nonautograd_cells"] += 1
+        acc.mon["reversal_pairs"] += 1
+        acc.cells.append("noreuse/%s/%s/%s/eps%g" % (case["method"], case["mol"], case["force"], eps))
+    return acc.result(ok, obs)
+
+
 def _momentum(case):
     """supplied velocities WITH net angular (or net linear) momentum, each COM-removal mode judged against what THAT mode
     is documented to do: None conserves P and L; ('linear', n) zeroes P and must not touch L; ('angular', n) zeroes both."""
@@ -744,6 +932,10 @@ def run_case(case):
         return _momentum(case)
     if kind == "continue":
         return _continue(case)
+    if kind == "loose-eps":
+        return _loose_eps(case)
+    if kind == "noreuse":
+        return _noreuse(case)
     if kind == "constants":
         return _constants(case)
     raise ValueError(kind)
